@@ -466,6 +466,62 @@ def equal_operations_across_engines(targets, universe, cols, stats):
         env.close()
 
 
+def unhashable_literal_pairs(targets, cols, stats):
+    """Literal values are arbitrary Python objects (ColumnLiteral.value: Any), e.g. a constant list handed to a user-defined
+    column function.  Each operation below is applied alone first (must be accepted and execute); the adjacent pair is then
+    two individually valid operations, so merging must not raise and must evaluate to the two in sequence."""
+    from lsst.daf.relation import ColumnExpression, SortTerm, iteration
+
+    a_, b_, c_ = cols
+    eng = iteration.Engine(name="U", functions={"vf_at": lambda x, seq: seq[x % len(seq)]})
+
+    def at(tag, seq):
+        return ColumnExpression.function("vf_at", ColumnExpression.reference(tag), ColumnExpression.literal(list(seq)))
+
+    def f(tag, seq):
+        return lambda r: seq[r[tag] % len(seq)]
+
+    ops = {
+        "sort[at(a,[2,0,1])]": (lambda r: r.sorted([SortTerm(at(a_, [2, 0, 1]))]), lambda d: sorted(d, key=f(a_, [2, 0, 1]))),
+        "sort[-at(b,[1,0])]": (lambda r: r.sorted([SortTerm(at(b_, [1, 0]), False)]), lambda d: sorted(d, key=lambda x: -f(b_, [1, 0])(x))),
+        "sort[at(a,[2,0,1]), c]": (
+            lambda r: r.sorted([SortTerm(at(a_, [2, 0, 1])), SortTerm(ColumnExpression.reference(c_))]),
+            lambda d: sorted(d, key=lambda x: (f(a_, [2, 0, 1])(x), x[c_])),
+        ),
+        "sel[at(a,[0,1,1]) = 1]": (lambda r: r.with_rows_satisfying(at(a_, [0, 1, 1]).eq(ColumnExpression.literal(1))), lambda d: [x for x in d if f(a_, [0, 1, 1])(x) == 1]),
+        "sel[at(c,[1,0,2]) >= 1]": (lambda r: r.with_rows_satisfying(at(c_, [1, 0, 2]).ge(ColumnExpression.literal(1))), lambda d: [x for x in d if f(c_, [1, 0, 2])(x) >= 1]),
+    }
+    for rows in targets:
+        data = [dict(zip(cols, r)) for r in rows]
+        leaf = eng.make_leaf(frozenset(cols), iteration.RowSequence(data), name="LU")
+        for n1, (ap1, ev1) in ops.items():
+            try:
+                single = [dict(r) for r in eng.execute(ap1(leaf))]
+            except Exception:
+                stats.c["unhashable-literal:single-operation-not-accepted"] += 1
+                continue
+            if single != ev1(data):
+                raise Violation("exec-changed-rows", f"{n1} over {data}: expected {ev1(data)} executed {single}")
+            for n2, (ap2, ev2) in ops.items():
+                try:
+                    [dict(r) for r in eng.execute(ap2(leaf))]
+                except Exception:
+                    continue
+                what = f"{n1} then {n2} (the list arguments are unhashable literal values) over {data}"
+                try:
+                    rel = ap2(ap1(leaf))
+                except Exception as e:
+                    raise Violation("merge-raised", f"merging two individually valid operations raised {type(e).__name__}: {e}; {what}", exc=e)
+                try:
+                    got = [dict(r) for r in eng.execute(rel)]
+                except Exception as e:
+                    raise Violation("execute-raised", f"{type(e).__name__}: {e}; tree {rel}; {what}", exc=e)
+                expected = ev2(ev1(data))
+                if got != expected:
+                    raise Violation("exec-changed-rows", f"{what}: tree {rel}: expected {expected} executed {got}")
+                stats.c["unhashable-literal-pairs"] += 1
+
+
 # ---------------------------------------------------------------- exhaustive slice space
 
 
@@ -501,6 +557,7 @@ def exhaustive(tier, stats, shard, nshards, run):
     if shard == 0:
         custom_operation_probe(g, targets, UNIVERSE, (A, B, C), stats)
         equal_operations_across_engines(targets, UNIVERSE, (A, B, C), stats)
+        unhashable_literal_pairs(targets, (A, B, C), stats)
     for rows in targets:
         leaf = ("L0", (A, B, C), rows, 1, "data", (len(rows), len(rows)), "plain")
         for up in g:
